@@ -50,13 +50,19 @@ type valObs struct {
 	Err    string            `json:"err"`
 }
 
-var valFlags struct{ progs string }
+var valFlags struct {
+	progs   string
+	withRef bool
+}
 var valProgs []valProg
 var valCounter int
 
 func init() {
 	families["validations"] = &family{
-		flags: func(fs *flag.FlagSet) { fs.StringVar(&valFlags.progs, "progs", "", "programs file (ndjson)") },
+		flags: func(fs *flag.FlagSet) {
+			fs.StringVar(&valFlags.progs, "progs", "", "programs file (ndjson)")
+			fs.BoolVar(&valFlags.withRef, "withref", false, "the schema carrier also holds a $ref (validations beside a reference)")
+		},
 		init: func() error {
 			b, err := os.ReadFile(valFlags.progs)
 			if err != nil {
@@ -241,6 +247,9 @@ func newCarrier(kind string) *carrier {
 		c.schema = spec.StringProperty().WithTitle("sentinel").WithDescription("other").WithRequired("q")
 		c.schema.SetProperty("q", *spec.Int64Property())
 		c.schema.AddExtension("x-keep", "me")
+		if valFlags.withRef {
+			c.schema.Ref = spec.MustCreateRef("#/definitions/X")
+		}
 	case "parameter":
 		c.param = spec.QueryParam("sentinel").Typed("array", "csv").WithDescription("other").AsRequired()
 		c.param.AddExtension("x-keep", "me")
